@@ -73,7 +73,14 @@ def gen_sessions(ctx):
                 # same header object, same fields; otherwise the application re-addresses /
                 # re-types the object it kept (the fields are public attributes)
                 t, to = msgs[-1]["type"], msgs[-1]["to"]
-            msgs.append({"how": how, "len": ln, "type": t, "to": to, "reuse": reuse})
+            mm = {"how": how, "len": ln, "type": t, "to": to, "reuse": reuse,
+                  # the message is a bytearray the application keeps; a frame arrives afterwards; the
+                  # next message may be the very same buffer object sent again
+                  "bytearray": rng.random() < 0.5, "incoming_after": rng.random() < 0.4}
+            if msgs and msgs[-1].get("bytearray") and how in ("send", "write") and msgs[-1]["how"] in ("send", "write") \
+                    and rng.random() < 0.35:
+                mm.update(rebuf=True, bytearray=True, len=msgs[-1]["len"])
+            msgs.append(mm)
         outage = None
         uni = [j for j, mm in enumerate(msgs) if mm["how"] in ("send", "write")]
         if uni and rng.random() < 0.5:
@@ -126,9 +133,14 @@ def run_session(ctx, case):
             return st["until"] is not None and pkt.t0 < st["until"]
         rig.air.fault = fault
         prev = None
+        kept = None
         for j, mm in enumerate(case["msgs"]):
             n, t, to, how = mm["len"], mm["type"], mm["to"], mm["how"]
             msg = bytes((n * 3 + i * 7 + t + j) & 0xFF for i in range(n))
+            if mm.get("rebuf") and kept is not None:
+                msg_obj, msg = kept  # the same object again; its content is what the application put there
+            else:
+                msg_obj = bytearray(msg) if mm.get("bytearray") else msg
             st["cur"], st["seen"] = j, []
             air0, ack0 = len(rig.air.log), len(ph.acked)
             node.deadline = node.t + 4000 * W.MS
@@ -173,13 +185,29 @@ def run_session(ctx, case):
                     hdr = prev if (mm["reuse"] and prev is not None) else Hdr(to, t)
                     hdr.to_node, hdr.message_type = to, t
                     fid = hdr.frame_id
-                    ret = obj.send(hdr, msg) if how == "send" else obj.write(Frame(hdr, msg))
+                    ret = obj.send(hdr, msg_obj) if how == "send" else obj.write(Frame(hdr, msg_obj))
             except W.VirtualDeadline:
                 ctx.violation("session/no-return", "message %d of %r did not return" % (j, case["msgs"]), case)
                 return
             finally:
                 node.deadline = None
             node.idle(3 * W.MS)
+            if how in ("send", "write"):
+                kept = (msg_obj, msg) if isinstance(msg_obj, bytearray) else None
+                if mm.get("incoming_after"):
+                    # traffic arrives for the node between two of its own transmissions
+                    air_in = len(rig.air.log)
+                    radio.inject_rx(1, net_ref.pack_header(0, me, 900 + j, 5, 0) + b"incoming-%d" % j)
+                    obj.update()
+                    while obj.available():
+                        obj.read()
+                    del rig.air.log[air_in:]
+                ctx.clause("caller_message_unmodified")
+                if isinstance(msg_obj, bytearray) and bytes(msg_obj) != msg:
+                    ctx.violation("caller-message-modified", "the bytearray given as message %d (%d bytes) holds %d "
+                                  "other bytes after the call%s" % (j, len(msg), len(msg_obj),
+                                                                   " and a received frame" if mm.get("incoming_after") else ""), case)
+                    return
             prev = hdr if hdr is not None else None
             what = "message %d (%s, %d bytes, type %d%s%s)" % (
                 j, how, n, t, ", header object re-used" if mm["reuse"] else "",
